@@ -54,7 +54,8 @@ pub enum Res {
 }
 
 fn rname(n: u8) -> String {
-    format!("N{}", n % 4)
+    // 0..=3: the four names every operation draws from; 4..: the bulk of a large knowledge base
+    format!("N{n}")
 }
 
 fn mk_rule(name: u8, sal: u8, uid: u32) -> Rule {
@@ -287,6 +288,9 @@ pub fn scenario(w: &KbWorkload, slot: &Shared) {
     if h.iter().any(|e| matches!(e.op, KOp::Remove { .. }) && e.res == Res::Bool(true)) {
         count(slot, "probe.rule_removed");
     }
+    if w.initial.len() > 20 {
+        count(slot, "probe.large_knowledge_base");
+    }
 }
 
 fn fail(slot: &Shared, clause: &str, sig: &str, msg: String) -> ! {
@@ -317,7 +321,16 @@ pub fn generate(rng: &mut Rng, thorough: bool) -> KbWorkload {
     };
     let nthreads = *rng.pick(&[1usize, 2, 2, 2, 3, 3]);
     let per = if nthreads == 1 { 1 + rng.usize(8) } else { 1 + rng.usize(if thorough { 4 } else { 4 }) };
-    let initial = (0..rng.usize(4)).map(|_| gen_op(rng)).collect();
+    let mut initial: Vec<KOp> = (0..rng.usize(4)).map(|_| gen_op(rng)).collect();
+    // one workload in twelve starts from a large knowledge base (21-40 further rules with salience ties):
+    // sorting and index maintenance behave differently on long vectors than on four entries
+    if rng.chance(1, 12) {
+        let n = 21 + rng.usize(20);
+        for i in 0..n {
+            initial.push(KOp::Add { name: 4 + i as u8, sal: rng.below(3) as u8, uid: 1000 + i as u32 });
+        }
+        initial.push(KOp::GetRules);
+    }
     let threads = (0..nthreads).map(|_| (0..per).map(|_| gen_op(rng)).collect()).collect();
     KbWorkload { initial, threads }
 }
@@ -348,7 +361,7 @@ pub fn shrink(w: &KbWorkload) -> Vec<KbWorkload> {
 
 pub fn describe() -> (&'static str, Vec<&'static str>, Vec<&'static str>, Vec<&'static str>) {
     (
-        "workloads: 0-3 sequential operations, then 1-3 client threads x 1-4 operations (one thread: up to 8) from add_rule (4 names x 3 \
+        "workloads: 0-3 sequential operations (one workload in twelve: 21-40 further add_rule calls with salience ties and a listing, so that the knowledge base is large), then 1-3 client threads x 1-4 operations (one thread: up to 8) from add_rule (4 names x 3 \
          saliences, unique description per add), remove_rule, set_rule_enabled, clear, get_rule, get_rules, get_rule_names, rule_count, \
          get_rules_by_salience, get_rule_by_index, version, get_statistics, followed by final reads after the join; every workload runs \
          under N seeded schedules. evaluations = schedules executed. A schedule is non-trivial iff two operations of different threads \
